@@ -1,5 +1,7 @@
 import GE.Codec
 import GE.Model.Path
+import GE.Model.VarName
+import GE.Model.JsLit
 /-!
 Model driver: one request per line (`op TAB field…`), one answer line per request.
 Unknown ops answer `bad-op` (never defaulted).
@@ -14,6 +16,27 @@ def step (fs : List String) : String :=
   match fs with
   | ["path_normalize", p] => esc (str (GE.Path.normalize (chars p)))
   | ["path_resolve", b, r] => esc (str (GE.Path.resolve (chars b) (chars r)))
+  | ["var_name", n] =>
+    match n.toNat? with
+    | some k => esc (str (GE.VarName.varName k))
+    | none => "bad-op"
+  | ["next_var_name", n] =>
+    match n.toNat? with
+    | some k =>
+      match GE.VarName.nextVarName GE.VarName.nextFuel k with
+      | some (nm, id) => esc (str nm) ++ "\t" ++ toString id
+      | none => "loop-does-not-end"
+    | none => "bad-op"
+  | ["lit_str", s] => esc (str (GE.JsLit.genLitStr (chars s)))
+  | ["lit_str_range", lo, hi, pre, suf] =>
+    match lo.toNat?, hi.toNat? with
+    | some a, some b =>
+      let outs := (List.range (b - a)).filterMap fun i =>
+        let v := a + i
+        if (0xD800 ≤ v ∧ v < 0xE000) ∨ v ≥ 0x110000 then none
+        else some (str (GE.JsLit.genLitStr (chars pre ++ [Char.ofNat v] ++ chars suf)))
+      esc (String.intercalate (String.singleton (Char.ofNat 31)) outs)
+    | _, _ => "bad-op"
   | _ => "bad-op"
 
 partial def loop (h : IO.FS.Stream) (out : IO.FS.Stream) : IO Unit := do
